@@ -89,6 +89,10 @@ def run(an: Analysis, rep):
                      "normalize": "code_data::CodeData.normalize", "from_code": "code_data::CodeData.from_code"}[entry]).module.relpath,
                     ("result shares mutable state: " + "; ".join(shared[:3])) if shared
                     else f"{n_obj} abstract objects reachable from the result, all allocated during the call", config=cfg)
+    from .common import SharedRules
+    from . import c08
+    rep.run(c08.r083, an, SharedRules(rep, "R12.5", "data built from a JSON document / code object keeps no reference to a mutable part of its argument (shared with C08's R08.3): "
+                                                   "mutating the document afterwards cannot change the CodeData"))
     rep.stats.update(an.stats(interps))
     rep.stats["configurations"] = [f"{e}@{vname(V)}" for e in API for V in VERSIONS]
     rep.assumptions += [
